@@ -2,6 +2,7 @@
 
 pub mod c20_core;
 pub mod dtls_hs;
+pub mod foreign_certs;
 pub mod rtpwire;
 pub mod srtp;
 pub mod stunwire;
